@@ -13,7 +13,7 @@ LEVEL = 'model_checking'
 ASSUMPTIONS = [
     'bounded: program spaces under coverage.bounds (blocks of 1-2 operations, two nesting levels, counts <= 3, fixed and registry-provided)',
     'reference model mc/ref/unroll.py; its schedule is used only for programs on which it agrees with the implementation as built (counter model-inapplicable otherwise)',
-    'the n-fold concatenation clause is asserted for library-built circuits only (C08/C11), as the statement does',
+    'the n-fold concatenation clause is asserted for library-built circuits only (family library-concatenation), as the statement does',
 ]
 EPS = 1e-9
 
@@ -150,15 +150,83 @@ class UnrollFamily(Family):
         res.trivial = all(r == 1 for r in reps_before) and rep_count(top_rep) == 1
 
 
+def expected_unrolled(comp):
+    """n-fold concatenation: the listing of a (sub-)circuit with every block replaced, in place, by count copies of its own expected listing."""
+    from mc.ref.stim_tr import direct_blocks
+    ops = comp.decomposed_operations()
+    first = {}
+    for b in direct_blocks(comp):
+        inner = b.decomposed_operations()
+        if inner:
+            first[id(inner[0])] = (b, len(inner))
+    out, i = [], 0
+    while i < len(ops):
+        o = ops[i]
+        if id(o) in first:
+            b, n = first[id(o)]
+            out.extend(expected_unrolled(b) * b.nr_of_repetitions)
+            i += n
+        else:
+            out.append((type(o).__name__, chans_of(o), getattr(o, 'acquisition_tag', None)))
+            i += 1
+    return out
+
+
+class LibraryUnroll(Family):
+    name = 'library-concatenation'
+    rule = ('repetition-code constructors (full and simplified; distance 2..4, cycles 0..7, refocusing on/off): the unrolled listing is exactly the n-fold concatenation of the '
+            'blocks\' listings, counts are reset and a second apply changes nothing; non-trivial = some block has a count >= 2')
+
+    def shards(self, tier):
+        return [(d, s) for d in (2, 3, 4) for s in (0, 1)]
+
+    def cases(self, tier, shard):
+        d, simplified = shard
+        for cycles in range(0, 8):
+            for refocus in (True, False):
+                yield (d, cycles, refocus, simplified)
+
+    def run(self, case):
+        from qce_circuit.language import InitialStateContainer, InitialStateEnum
+        from qce_circuit.library.repetition_code.circuit_components import RepetitionCodeDescription
+        from qce_circuit.library.repetition_code.circuit_constructors import construct_repetition_code_circuit, construct_repetition_code_circuit_simplified
+        d, cycles, refocus, simplified = case
+        res = Res()
+        init = InitialStateContainer.from_ordered_list([InitialStateEnum.ZERO] * d)
+        desc = RepetitionCodeDescription.from_chain(2 * d - 1, qubit_refocusing=refocus)
+        ctor = construct_repetition_code_circuit_simplified if simplified else construct_repetition_code_circuit
+        c = ctor(qec_cycles=cycles, description=desc, initial_state=init)
+        want = expected_unrolled(c.circuit_structure)
+        reps = [x.nr_of_repetitions for x in c.composite_operations]
+        un = c.apply_modifiers()
+        got = [(type(o).__name__, chans_of(o), getattr(o, 'acquisition_tag', None)) for o in un.operations]
+        if got != want:
+            k = next((i for i, (a, b) in enumerate(zip(got, want)) if a != b), min(len(got), len(want)))
+            res.fail('C06-library-concatenation', 'constructor input %r: unrolled listing is not the n-fold concatenation: #%d %r vs %r (lengths %d / %d)' % (
+                case, k, got[k] if k < len(got) else None, want[k] if k < len(want) else None, len(got), len(want)))
+        if any(x.nr_of_repetitions != 1 for x in un.composite_operations):
+            res.fail('C06-not-reset', 'constructor input %r: counts not reset' % (case,))
+        ops1 = un.operations
+        ops2 = un.apply_modifiers().operations
+        if len(ops1) != len(ops2) or any(a is not b for a, b in zip(ops1, ops2)):
+            res.fail('C06-idempotent-listing', 'constructor input %r: applying modifiers again changes the listing' % (case,))
+        res.outcome = (case, len(got))
+        res.states = [tuple(got)]
+        res.transitions = 3
+        res.validated = 1
+        res.trivial = all(r < 2 for r in reps)
+        return res
+
+
 def families(tier):
     if tier == 'quick':
         return [UnrollFamily(NestedSpace2(2)), UnrollFamily(NestedSpace1(3)),
                 UnrollFamily(NestedSpace1(2, reps=(1, 2, 3), bodies=N1_BODIES + N1_BODIES_EXTRA), 'H', top_reps=(1, 2, ('reg', 3))),
-                UnrollFamily(TwoLevelSpace(1), 'D', top_reps=(1, 2))]
+                UnrollFamily(TwoLevelSpace(1), 'D', top_reps=(1, 2)), LibraryUnroll()]
     return [UnrollFamily(NestedSpace2(2)), UnrollFamily(NestedSpace2(2, reps=(('reg', 2), ('reg', 3)), atoms=[('X', 0), ('R', 1), ('M', 0), ('Z', 0), ('B', 0)]), 'H'),
             UnrollFamily(NestedSpace1(3, reps=(1, 2, 3), bodies=N1_BODIES + N1_BODIES_EXTRA), 'G', top_reps=(1, 2)),
             UnrollFamily(NestedSpace1(3), 'D'),
-            UnrollFamily(TwoLevelSpace(2), 'D', top_reps=(1, 2, ('reg', 3)))]
+            UnrollFamily(TwoLevelSpace(2), 'D', top_reps=(1, 2, ('reg', 3))), LibraryUnroll()]
 
 
 def signature(f):
